@@ -648,3 +648,35 @@ Proof.
 Qed.
 
 End PP.
+
+(* ---------- statements for Properties/C02.v ---------- *)
+Definition loader_hyps (T : tables) (tab_el tab_at tab_en : nametab) (check_fn : N -> list N -> res bool) : Prop :=
+  tables_ok T = true /\ nametab_ok tab_el = true /\ nametab_ok tab_at = true /\ nametab_ok tab_en = true /\
+  attr_names_ok tab_at = true /\
+  (forall fn maxlen i s, T_cdata T i = Some (CPattern fn maxlen) -> bytes_ok s = true -> exists b, check_fn fn s = Val b).
+
+Theorem load_total_closed strict T tab_el tab_at tab_en check_fn float_parse bs :
+  loader_hyps T tab_el tab_at tab_en check_fn -> bytes_ok bs = true ->
+  exists r, load strict T tab_el tab_at tab_en check_fn float_parse bs = Val r.
+Proof.
+  intros (H1 & H2 & H3 & H4 & H5 & H6) HB.
+  pose proof (load_total strict T tab_el tab_at tab_en check_fn float_parse bs H1 H2 H3 H4 H5 H6 HB) as H.
+  destruct (load _ _ _ _ _ _ _ _) as [r| |]; [eauto|destruct H|destruct H].
+Qed.
+
+Theorem load_line_bounds strict T tab_el tab_at tab_en check_fn float_parse bs :
+  loader_hyps T tab_el tab_at tab_en check_fn -> bytes_ok bs = true ->
+  forall r, load strict T tab_el tab_at tab_en check_fn float_parse bs = Val r ->
+  let in_range := fun e => match e with
+                           | ErrLex line _ => (1 <= line <= 1 + count_lines bs)%N
+                           | ErrParse line _ _ _ => (1 <= line <= 1 + count_lines bs)%N
+                           end in
+  match r with
+  | Ret _ st => Forall in_range (p_warnings st)
+  | Raise e st => in_range e /\ Forall in_range (p_warnings st)
+  end.
+Proof.
+  intros (H1 & H2 & H3 & H4 & H5 & H6) HB r E.
+  pose proof (load_total strict T tab_el tab_at tab_en check_fn float_parse bs H1 H2 H3 H4 H5 H6 HB) as H.
+  rewrite E in H. exact H.
+Qed.
